@@ -1,6 +1,7 @@
 """C17 - bitset equals std::bitset (clauses: padding-bit taint, delegation, storage arithmetic, contracts, equality)."""
 import json
 
+import re
 from .. import astx
 from .. import db as D
 from ..rules import sets as SP
@@ -829,6 +830,8 @@ META = (META[0] + ' SIBNAME; COPYMOD (value-returning operators read the object 
 
 META = (META[0] + ' ACCTYPE (folds over the words do not accumulate in an int deduced from a literal initial value; controls in fixtures/arith_pos.hpp).', META[1])
 
+META = (META[0] + ' WORDSPLIT (every (word, offset) pair basic_bitset hands to a bit primitive is evaluated from the source for all positions and word widths: word pos / W, offset pos % W); CSTRN (the (pointer, n) constructor measures the array only in the `n == npos` arm).', META[1])
+
 
 def run(chk, tier):
     db = D.load("checks")
@@ -841,6 +844,8 @@ def run(chk, tier):
     guard_rule(chk, db)
     proxy_rule(chk, db)
     bitprim_rule(chk, db)
+    wordsplit_rule(chk, db)
+    cstrn_rule(chk, db)
     agg_rule(chk, db)
     retarg_rule(chk, db)
     from ..rules import iters as _ITG
@@ -860,3 +865,219 @@ def run(chk, tier):
         "bit order of the string conversion and the values of to_ulong/to_ullong are run-time values and are not decided",
         "TAINT assumes the operands of &=, |=, ^= satisfy the invariant themselves (it is established for every mutating member)",
     ]
+
+
+# ---- WORDSPLIT: a bit position is split into (word index, offset in the word) as (pos / W, pos % W) ---------------------------
+def wordsplit_rule(chk, db):
+    """Every member of basic_bitset that addresses a bit hands a word `_words[X]` and an offset Y, both computed from one
+    position parameter, to a primitive (`test_bit(_words[X], Y)`, `reference{_words[X], Y}`, `op(word, Y)` with
+    `word = _words[X]`). With W = bits_per_word the only correct split is X = pos / W and Y = pos % W. X and Y are evaluated
+    from the source (one-return static helpers inlined, static constexpr members from their initialisers,
+    numeric_limits<WordType>::digits = W) for W in {8, 16, 32, 64}, Bits = 3 * W + 5 and every pos below Bits."""
+    rq = "etl::basic_bitset"
+    rec = db.record(rq)
+    if rec is None:
+        chk.analysis_broken("WORDSPLIT: etl::basic_bitset no longer exists")
+        return 0
+    statics = dict((sm["n"], sm.get("init")) for sm in rec.get("statics", []) or [])
+    helpers = {}
+    for g in db.funcs:
+        if g.get("record") == rq and g.get("body") is not None:
+            st = g["body"].get("s") or []
+            if len(st) == 1 and st[0].get("k") == "return" and st[0].get("e") is not None:
+                helpers.setdefault(g["n"], g)
+
+    class NM(Exception):
+        pass
+
+    M = (1 << 64) - 1
+
+    def ev(e, env, depth=0):
+        e = astx.strip_casts(e)
+        while e is not None and e.get("k") in ("construct", "initlist") and len(e.get("a", [])) == 1:
+            e = astx.strip_casts(e["a"][0])
+        if e is None or depth > 6:
+            raise NM("empty")
+        iv = astx.int_value(e)
+        if iv is not None:
+            return iv
+        k = e.get("k")
+        if k == "ref":
+            n = e["n"]
+            if n in env:
+                return env[n]
+            if n == "digits" and "numeric_limits" in (e.get("qual") or ""):
+                return env["$W"]
+            if n in statics and statics[n] is not None and not e.get("qual"):
+                return ev(statics[n], env, depth + 1)
+            raise NM("name `%s`" % n)
+        if k == "mem" and e.get("n") in statics and statics[e["n"]] is not None:
+            return ev(statics[e["n"]], env, depth + 1)
+        if k == "bin" and e["op"] in ("+", "-", "*", "/", "%", "&", "|", "^", "<<", ">>"):
+            a, b = ev(e["l"], env, depth), ev(e["r"], env, depth)
+            op = e["op"]
+            if op in ("/", "%") and b == 0:
+                raise NM("division by zero")
+            r = {"+": lambda: a + b, "-": lambda: a - b, "*": lambda: a * b, "/": lambda: a // b, "%": lambda: a % b,
+                 "&": lambda: a & b, "|": lambda: a | b, "^": lambda: a ^ b, "<<": lambda: a << min(b, 127),
+                 ">>": lambda: a >> min(b, 127)}[op]()
+            return r & M
+        if k == "call":
+            nm, q, recv, kind = astx.callee(e)
+            if nm in helpers and (recv is None or astx.is_this(astx.strip_casts(recv))):
+                g = helpers[nm]
+                if len(g["params"]) == len(e["a"]):
+                    sub = dict((kk, vv) for kk, vv in env.items() if kk.startswith("$"))
+                    for p0, a in zip(g["params"], e["a"]):
+                        sub[p0["n"]] = ev(a, env, depth)
+                    return ev(g["body"]["s"][0]["e"], sub, depth + 1)
+            if nm == "size" and not e["a"]:
+                return env["$Bits"]
+            raise NM("call `%s`" % astx.show(e, 30))
+        raise NM(astx.show(e, 30))
+
+    n = 0
+    for f in db.funcs:
+        if f.get("record") != rq or f.get("body") is None:
+            continue
+        pos_params = [p["n"] for p in f["params"] if p.get("n") == "pos"]
+        if not pos_params:
+            continue
+        pos = pos_params[0]
+        # local references to a word: auto& word = _words[X]
+        word_locals = {}
+        for st in astx.walk_stmts(f["body"]):
+            if st.get("k") == "decl":
+                for v in st["vars"]:
+                    i0 = astx.strip_casts(v.get("init")) if v.get("init") is not None else None
+                    if i0 is not None and i0.get("k") == "idx" and astx.show(astx.strip_casts(i0["b"]), 20).endswith("_words"):
+                        word_locals[v["n"]] = i0["i"]
+        consts = {}
+        for st in astx.walk_stmts(f["body"]):
+            if st.get("k") == "decl":
+                for v in st["vars"]:
+                    if v.get("init") is not None and v["n"] not in word_locals and "other" not in v:
+                        consts[v["n"]] = v["init"]
+        pairs = []
+        for x in astx.all_exprs(f, into_lambdas=False):
+            if x.get("k") not in ("call", "construct"):
+                continue
+            args = list(x.get("a") or [])
+            if len(args) == 1 and args[0] is not None and args[0].get("k") == "initlist":
+                args = args[0]["a"]
+            if len(args) < 2:
+                continue
+            a0 = astx.strip_casts(args[0])
+            X = None
+            if a0 is not None and a0.get("k") == "idx" and astx.show(astx.strip_casts(a0["b"]), 20).endswith("_words"):
+                X = a0["i"]
+            elif a0 is not None and a0.get("k") == "ref" and a0.get("n") in word_locals:
+                X = word_locals[a0["n"]]
+            if X is None:
+                continue
+            Y = args[1]
+            if not any(y.get("k") == "ref" and (y.get("n") == pos or y.get("n") in consts) for y in astx.walk_expr(Y)):
+                continue
+            pairs.append((x, X, Y))
+        for x, X, Y in pairs:
+            n += 1
+            label = "%s :: `%s`" % (astx.sig(f), astx.show(x, 70))
+            chk.instance("WORDSPLIT")
+            bad = unknown = None
+            judged = 0
+            for W in (8, 16, 32, 64):
+                bits = 3 * W + 5
+                for p in range(bits):
+                    env = {pos: p, "$W": W, "$Bits": bits, "Bits": bits}
+                    try:
+                        for cn, ce in consts.items():
+                            try:
+                                env[cn] = ev(ce, env)
+                            except NM:
+                                pass
+                        gx, gy = ev(X, env), ev(Y, env)
+                    except NM as ex:
+                        unknown = str(ex)
+                        break
+                    judged += 1
+                    if (gx, gy) != (p // W, p % W) and bad is None:
+                        bad = (W, p, gx, gy)
+                if unknown:
+                    break
+            if unknown:
+                chk.obligation("WORDSPLIT", label, None)
+                chk.unknown_instance("WORDSPLIT", label, "not evaluated: " + unknown)
+                continue
+            chk.obligation("WORDSPLIT", label, bad is None, evaluations=judged)
+            if bad:
+                W, p, gx, gy = bad
+                chk.violation("WORDSPLIT", label, "wrong-bit-addressed",
+                              "%s: with %d-bit words position %d is addressed as word %d, offset %d; it is word %d, offset %d"
+                              % (astx.loc(f, x), W, p, gx, gy, p // W, p % W), {"where": astx.loc(f)})
+    if n < 3:
+        chk.analysis_broken("WORDSPLIT: only %d (word, offset) pairs found in basic_bitset (floor 3)" % n)
+    return n
+
+
+# ---- CSTRN: the (pointer, n) constructor measures the array only when no count is given --------------------------------------
+def cstrn_rule(chk, db):
+    """[bitset.cons]: bitset(const charT* str, n, zero, one) initialises from `n == npos ? basic_string(str) :
+    basic_string(str, n)`: with a count the first n characters of the array are used, whatever they are (zero / one may be the
+    null character). A view built from the pointer alone measures the array up to its first null; such a construction is
+    allowed only in the arm of a `n == npos` test where no count was given."""
+    n_inst = 0
+    for f in db.funcs:
+        if f.get("record") != "etl::bitset" or f["n"] != "<ctor>" or len(f["params"]) < 2:
+            continue
+        p0, p1 = f["params"][0], f["params"][1]
+        if "*" not in p0.get("ty", "") or not re.search(r"size_type|size_t", p1.get("ty", "")):
+            continue
+        n_inst += 1
+        construct = astx.sig(f)
+        chk.instance("CSTRN")
+        bad = []
+
+        def npos_test(c):
+            """+1 when c is `n == npos`, -1 for `n != npos`, 0 otherwise"""
+            c = astx.strip_casts(c)
+            if c is not None and c.get("k") == "bin" and c["op"] in ("==", "!="):
+                sides = [astx.strip_casts(c["l"]), astx.strip_casts(c["r"])]
+                if any(s is not None and s.get("k") == "ref" and s.get("n") == p1["n"] for s in sides) and \
+                        any(s is not None and "npos" in astx.show(s, 60) for s in sides):
+                    return 1 if c["op"] == "==" else -1
+            return 0
+
+        def visit(e, uncounted):
+            if e is None or not isinstance(e, dict):
+                return
+            if e.get("k") == "cond":
+                t = npos_test(e["c"])
+                visit(e["c"], uncounted)
+                visit(e["t"], uncounted or t > 0)
+                visit(e["f"], uncounted or t < 0)
+                return
+            if e.get("k") in ("construct", "cast") and "basic_string_view" in (e.get("ty") or ""):
+                args = e.get("a") if e.get("k") == "construct" else [e.get("e")]
+                args = [a for a in (args or []) if a is not None]
+                if len(args) == 1 and args[0].get("k") == "initlist":
+                    args = args[0]["a"]
+                if len(args) == 1:
+                    a0 = astx.strip_casts(args[0])
+                    if a0 is not None and a0.get("k") == "ref" and a0.get("n") == p0["n"] and not uncounted:
+                        bad.append(e)
+            for c in astx.children(e):
+                visit(c, uncounted)
+
+        exprs = [i.get("e") for i in (f.get("inits") or [])]
+        if f.get("body") is not None:
+            exprs += list(e for st in astx.walk_stmts(f["body"]) for e in astx.stmt_exprs(st))
+        for e in exprs:
+            visit(e, False)
+        chk.obligation("CSTRN", construct, not bad)
+        for e in bad[:1]:
+            chk.violation("CSTRN", construct, "count-ignored", "%s: `%s` measures the array up to its first null character although a "
+                          "count `%s` may have been given: with `zero` or `one` equal to the null character the first %s characters "
+                          "are not the ones used" % (astx.loc(f, e), astx.show(e, 50), p1["n"], p1["n"]), {"where": astx.loc(f)})
+    if n_inst < 1:
+        chk.analysis_broken("CSTRN: bitset(CharT const*, n, zero, one) no longer exists")
+    return n_inst
